@@ -16,7 +16,8 @@
 (***************************************************************************)
 EXTENDS SegHeap, Sequences
 
-CONSTANTS MaxVals, MaxTime
+CONSTANTS MaxVals, MaxTime,
+          Faults      \* TRUE: explore a panic of the expiration accessor at every callback of next() (C18)
 VARIABLES chunks, vals, now, it, yielded
 vars == <<chunks, vals, now, it, yielded>>
 
@@ -85,12 +86,36 @@ IterNext ==
              /\ Assert(r[5] \in it.expect /\ \A j \in 1..Len(yielded) : yielded[j] # r[5], <<"C03 yield", r[5], yielded, it.expect>>)
   /\ UNCHANGED <<vals, now>>
 
+\* C18: the expiration accessor is the only user callback of next(); it is called once per copy the
+\* scan looks at, before that copy is removed or reported.  ScanP is Scan with a countdown: at the
+\* cd-th call of the accessor it panics and the call unwinds with the lists as they are then.
+RECURSIVE ScanP(_, _, _, _, _, _, _)
+ScanP(ch, i0, i, bits, q, t, cd) ==
+  IF i0 = -1 THEN <<ch, FALSE>>                                    \* returned None before the cd-th callback
+  ELSE IF i < Len(ch[i0]) THEN
+     IF cd = 1 THEN <<ch, TRUE>>                                    \* item.val.expiration() panics
+     ELSE LET item == ch[i0][i + 1] IN
+          IF item.e < t THEN ScanP([ch EXCEPT ![i0] = SwapRemove(@, i + 1)], i0, i, bits, q, t, cd - 1)
+          ELSE IF MinOf(item.mask \cap q) = i0 THEN <<ch, FALSE>>  \* returned Some before the cd-th callback
+          ELSE ScanP(ch, i0, i + 1, bits, q, t, cd - 1)
+  ELSE LET f == FindNext(ch, bits) IN ScanP(ch, f[1], 0, f[2], q, t, cd)
+
+IterNextPanic ==
+  /\ it.on
+  /\ \E cd \in 1..(MaxVals * (2 * H) + 1) :
+        LET r == ScanP(chunks, it.i0, it.i1, it.bits, it.q, it.t, cd) IN
+        /\ r[2]
+        /\ chunks' = r[1]
+  /\ it' = NoIt                          \* the iterator is dropped by the unwinding
+  /\ UNCHANGED <<vals, now, yielded>>
+
 IterDrop == it.on /\ it' = NoIt /\ UNCHANGED <<chunks, vals, now, yielded>>
 Clear == ~it.on /\ chunks' = [i \in Nodes |-> <<>>] /\ vals' = {} /\ now' = 0 /\ UNCHANGED <<it, yielded>>
 
 Next == \/ \E r \in Ranges, e \in Exps : Insert(r[1], r[2], e)
         \/ \E r \in Ranges, t \in Times : IterNew(r[1], r[2], t)
         \/ IterNext \/ IterDrop \/ Clear
+        \/ (Faults /\ IterNextPanic)
 Spec == Init /\ [][Next]_vars
 
 \* unexpired values keep every copy
